@@ -268,6 +268,8 @@ type err_kind =
 
 val err_kind_name : err_kind -> string
 
+val all_err_kind : err_kind list
+
 val max_prio : n
 
 val prio : binop -> n
